@@ -86,7 +86,14 @@ Programs ==
      << P("prog", 0, <<2, 3, 4>>), PN("call", 1, <<>>, "Z"), P("mark", 1, <<>>), P("mark", 1, <<>>) >>,
      \* 20: Macro A(Mark, Mark); Watch(Call A); Mark; Mark; Mark          a call from a watch body
      << P("prog", 0, <<2, 5, 7, 8, 9>>), PN("macro", 1, <<3, 4>>, "A"), P("mark", 2, <<>>), P("mark", 2, <<>>), P("watch", 1, <<6>>),
-        PN("call", 5, <<>>, "A"), P("mark", 1, <<>>), P("mark", 1, <<>>), P("mark", 1, <<>>) >> >>
+        PN("call", 5, <<>>, "A"), P("mark", 1, <<>>), P("mark", 1, <<>>), P("mark", 1, <<>>) >>,
+     \* 21: Block(Block(Block(Mark, End block), Mark, End block), Mark, End block); Mark      three levels, ended one by one
+     << P("prog", 0, <<2, 11>>), P("block", 1, <<3, 9, 10>>), P("block", 2, <<4, 7, 8>>), P("block", 3, <<5, 6>>), P("mark", 4, <<>>),
+        P("end", 4, <<>>), P("mark", 3, <<>>), P("end", 3, <<>>), P("mark", 2, <<>>), P("end", 2, <<>>), P("mark", 1, <<>>) >>,
+     \* 22: Block(Block(Block(Watch(End block), Mark, Mark, Mark), Mark, End block), Mark, End block)   a watch ends the innermost of three
+     << P("prog", 0, <<2>>), P("block", 1, <<3, 12, 13>>), P("block", 2, <<4, 10, 11>>), P("block", 3, <<5, 7, 8, 9>>), P("watch", 4, <<6>>),
+        P("end", 5, <<>>), P("mark", 4, <<>>), P("mark", 4, <<>>), P("mark", 4, <<>>), P("mark", 3, <<>>), P("end", 3, <<>>),
+        P("mark", 2, <<>>), P("end", 2, <<>>) >> >>
 
 VARIABLES prog,         \* index into Programs
           st,           \* the interpreter state (a record, see Fresh)
